@@ -13,11 +13,13 @@
 //	inspector fresh process: restarts the real server on the directory the
 //	          victim left and compares it with the reference models
 //
-// Three injectors: (1) strace attached to the paused victim kills it on entry
+// Injectors: (1) strace attached to the paused victim kills it on entry
 // of the N-th openat/write/close/... of one server file inside one operation
 // (the list of boundaries comes from a traced census run of the same
 // history), (2) SIGKILL at every operation boundary, (3) SIGKILL at
-// PRNG-chosen instants of a concurrent workload.
+// PRNG-chosen instants of a concurrent workload, (4) SIGKILL aimed inside the
+// multi-page write(2) of a statistics record (sent when the file starts to
+// grow).
 package main
 
 import (
@@ -56,11 +58,11 @@ func main() {
 		Pkg:   "./cmd/c05",
 		Rule: "a case is one crash actually delivered to a victim process running the real server (the victim died by SIGKILL) followed by the full restart oracle in a fresh process. " +
 			"Non-trivial = every such case; distinct by (history, operation index, file, system call, ordinal of that call on that file inside the operation, read back from the strace log) for system-call-boundary kills, " +
-			"by (history, boundary index) for operation-boundary kills and by (workload, set of acknowledged operations, set of operations in flight) for random-instant kills. " +
+			"by (history, boundary index) for operation-boundary kills and by (workload, set of acknowledged operations, set of operations in flight) for random-instant and rotation-aimed kills. " +
 			"Aimed injections that did not fire (the operation completed) are counted as missed and judged as the operation-boundary kill they became.",
 		Assumptions: []string{
 			"process-crash model: the kernel keeps every completed system call; power loss (unsynced page cache, reordered or torn sector writes) is outside the model",
-			"strace delivers SIGKILL on entry of a system call, so a crash point is a boundary between two system calls on the server's files; a SIGKILL landing inside a multi-page write(2) of a large statistics record cannot be placed by strace (the random-instant injector could hit it; if it ever does the oracle reports it)",
+			"strace delivers SIGKILL on entry of a system call, so its crash points are the boundaries between system calls on the server's files; it cannot place a kill inside a write(2). The inside of the multi-page write of a weekly statistics record is reached by a fourth injector instead (a watcher thread in the victim sends SIGKILL as soon as the history file starts to grow); the inside of an 80/148-byte record write that straddles a page boundary is a sub-microsecond window no injector here can aim at (the random-instant injector could hit it; if it ever does the oracle reports it under torn-record-after-kill-inside-write:<file>)",
 			"the set of system-call boundaries of an operation is taken from a traced census run of the same history; `when=N` of strace counts per thread, so the achieved crash point is read back from the strace log and only achieved points count",
 			"sequential histories: the recovered state must equal model(acked) or model(acked + the one operation in flight); concurrent workloads are built so that operations of different workers commute (disjoint devices, report slots valid before and after the round's rotation), except the device list of a week archived in the same round as an authorization/ban, which is compared up to those devices",
 			"the inspector restarts the server at a protocol clock at which no catch-up rotation is due (rotation and impact jobs gated); catch-up on restart is C04's subject",
@@ -73,6 +75,9 @@ func main() {
 }
 
 func post(c *ev.Check, outs []*run.Outcome) {
+	if os.Getenv("VERIF_REPLAY") != "" {
+		return // a replay re-runs the one batch of a witness; the coverage floors below are for full runs
+	}
 	type req struct {
 		name     string
 		quick, t int64
@@ -81,6 +86,7 @@ func post(c *ev.Check, outs []*run.Outcome) {
 		{"achieved_syscall_kills", 30, 600},
 		{"boundary_kills", 30, 300},
 		{"random_kills", 15, 600},
+		{"rotation_aimed_kills", 12, 200},
 		{"disk.server_keys_empty", 1, 3},
 		{"disk.gcapubkey_empty", 1, 3},
 		{"restart_ok", 80, 1500},
@@ -132,6 +138,13 @@ func plan(tier string, seed int64) []run.Batch {
 	for i := 0; i < rndBatches; i++ {
 		add("random", seed*1000+500+int64(i), map[string]string{"kills": fmt.Sprint(rndKills)})
 	}
+	rotBatches, rotKills := 2, 12
+	if tier == "thorough" {
+		rotBatches, rotKills = 10, 40
+	}
+	for i := 0; i < rotBatches; i++ {
+		add("rotkill", seed*1000+800+int64(i), map[string]string{"kills": fmt.Sprint(rotKills)})
+	}
 	return bs
 }
 
@@ -148,7 +161,7 @@ type gen struct {
 
 func newGen(name string, seed int64) *gen {
 	rng := rand.New(rand.NewSource(seed))
-	sc := &Script{Name: name, Seed: seed, Temp: refenc.GenKey(rng), GCA: refenc.GenKey(rng), Alt: refenc.GenKey(rng), PauseBefore: -1, PauseAfter: -1, StopBefore: -1}
+	sc := &Script{Name: name, Seed: seed, Temp: refenc.GenKey(rng), GCA: refenc.GenKey(rng), Alt: refenc.GenKey(rng), PauseBefore: -1, PauseAfter: -1, StopBefore: -1, KillInOp: -1}
 	for i := range sc.Probe {
 		sc.Probe[i] = refenc.GenKey(rng)
 	}
@@ -510,6 +523,30 @@ func genConc(seed int64, rounds int) *Script {
 	return sc
 }
 
+// genRot builds a sequential history whose rotations archive many devices, so
+// that the statistics record is hundreds of kilobytes and its write(2) takes
+// long enough for a random-instant kill to land inside it.
+func genRot(seed int64) (*Script, []int) {
+	g := newGen(fmt.Sprintf("rot-%d", seed), seed)
+	sc := g.sc
+	g.seq("start", "start.first", nil, 0)
+	g.seq("register", "register", regBytes(sc.GCA.Pub, sc.Temp.Priv), 0)
+	for i := 0; i < 16+g.rng.Intn(12); i++ {
+		g.seq("auth", "auth.new", g.newAuth(uint64(50000+g.rng.Intn(150000)), sc.GCA).Bytes(), 0)
+	}
+	var rots []int
+	for k := 0; k < 2; k++ {
+		g.seq("clock", "clock", nil, g.m.Offset+100+uint32(g.rng.Intn(200)))
+		for i := 0; i < 6; i++ {
+			g.seqReport([]string{"fresh", "fresh", "equiv", "overcap"}[g.rng.Intn(4)])
+		}
+		g.seqRotate()
+		rots = append(rots, g.n-1)
+	}
+	g.seqReport("fresh")
+	return sc, rots
+}
+
 // ---------------------------------------------------------------- driver
 
 type driver struct {
@@ -758,7 +795,7 @@ func (d *driver) runCase(cs caseSpec) (co caseOut) {
 		case st == "ok":
 			kill() // the operation completed: what remains is an operation-boundary kill
 		}
-	case "boundary":
+	case "boundary", "rotkill":
 		_, st := waitFor(func(s string) bool { return strings.HasPrefix(s, "PAUSE ") || s == "DONE" }, 50*time.Second)
 		if st == "timeout" {
 			watchdog("victim did not reach the boundary")
@@ -880,6 +917,13 @@ func (d *driver) runCase(cs caseSpec) (co caseOut) {
 	case "boundary", "census":
 		r.Count("boundary_kills", 1)
 		r.Nontrivial(fmt.Sprintf("bnd|%s|%d", cs.Sc.Name, cs.OpI))
+	case "rotkill":
+		if sentKill {
+			r.Count("rotation_aimed.finished_before_kill", 1)
+		} else {
+			r.Count("rotation_aimed_kills", 1)
+		}
+		r.Nontrivial(fmt.Sprintf("rot|%s|%d|%d|%v", cs.Sc.Name, cs.OpI, len(lg.Ended), infl))
 	case "random":
 		r.Count("random_kills", 1)
 		if len(infl) > 0 {
@@ -895,6 +939,10 @@ func (d *driver) runCase(cs caseSpec) (co caseOut) {
 	}
 	if sizes["gcaPubKey.dat"] == 0 {
 		r.Count("disk.gcapubkey_empty", 1)
+	}
+	torn := deriveFromFiles(disk, cs.Sc.Temp.Pub).Torn
+	for n := range torn {
+		r.Count("disk.torn."+n, 1)
 	}
 	for _, n := range serverFiles {
 		switch {
@@ -956,6 +1004,27 @@ func (d *driver) runCase(cs caseSpec) (co caseOut) {
 	if len(cs.Sc.Rounds) == 0 {
 		replay["history"] = flat
 	}
+	// A kill that was not placed at a system-call boundary (random-instant
+	// injectors) can land inside a write(2): the kernel keeps the pages copied so
+	// far. That class of witness gets its own stable key.
+	viol := func(key string, format string, a ...interface{}) {
+		if cs.Mode == "random" || cs.Mode == "rotkill" {
+			writer := map[string]string{"allDeviceStats.dat": "rotate", "equipment-reports.dat": "report", "equipment-authorizations.dat": "auth", "gcaPubKey.dat": "register"}
+			for f, why := range torn {
+				hit := false
+				for _, i := range infl {
+					hit = hit || byI[i].K == writer[f]
+				}
+				if hit {
+					replay["torn"] = torn
+					replay["original_key"] = key
+					r.Violationf("torn-record-after-kill-inside-write:"+f, replay, "a SIGKILL landed inside the write(2) that appends a record to %s (%s; in flight: %s): the kernel kept the part already copied, and on the directory with that torn record: %s", f, why, writer[f], fmt.Sprintf(format, a...))
+					return
+				}
+			}
+		}
+		r.Violationf(key, replay, format, a...)
+	}
 	out := loadInspOut(outPath)
 	stderrHead := headOf(istderrPath, 6000)
 	if out == nil {
@@ -978,14 +1047,14 @@ func (d *driver) runCase(cs caseSpec) (co caseOut) {
 			case "start3":
 				key, what = "restart-after-probes-failed:", "the start after the probe operations died"
 			}
-			r.Violationf(key+run.Normalize(line), replay, "%s: %s (files after the crash: %v)", what, line, sizes)
+			viol(key+run.Normalize(line), "%s: %s (files after the crash: %v)", what, line, sizes)
 		default:
 			r.Inconc(fmt.Sprintf("inspector exited with %d at stage %s without a result; stderr: %.300s", icmd.ProcessState.ExitCode(), stage, stderrHead))
 		}
 		return
 	}
 	for _, v := range out.Violations {
-		r.Violationf(v.Key, replay, "%s", v.Desc)
+		viol(v.Key, "%s", v.Desc)
 	}
 	for k, v := range out.Counters {
 		r.Count(k, v)
@@ -1150,6 +1219,21 @@ func child(b run.Batch, r *ev.Result) {
 		for i := 1; i < kills; i++ {
 			delay := time.Duration(rng.Float64() * 1.02 * float64(span))
 			d.runCase(caseSpec{Mode: "random", Sc: sc, Delay: delay, Procs: 4, Judge: true, Kind: "random"})
+			if r.NumViolations() > 25 {
+				return
+			}
+		}
+	case "rotkill":
+		var kills int
+		fmt.Sscan(b.P("kills"), &kills)
+		rng := rand.New(rand.NewSource(b.Seed))
+		sc, rots := genRot(b.Seed)
+		for i := 0; i < kills; i++ {
+			op := rots[i%len(rots)]
+			s := sc.clone()
+			s.KillInOp, s.PauseAfter = op, op
+			s.KillDelayUs = rng.Intn(120)
+			d.runCase(caseSpec{Mode: "rotkill", Sc: s, OpI: op, Kind: "rotate", Procs: 2, Judge: true, Delay: time.Duration(s.KillDelayUs) * time.Microsecond})
 			if r.NumViolations() > 25 {
 				return
 			}
